@@ -148,10 +148,16 @@ class PrinterDomain(TermDomain):
         # ---- iterator adaptors ------------------------------------------------------------------------------------
         if name == "std::iter::from_fn" and len(vals) == 1:
             return [(gen(vals[0]), store)]
-        if name == "std::iter::Iterator::take" and len(args) == 2:
+        def own(v_):
+            """One of this domain's iterator values (generator, Take over one, scripted digit string, integer range)?"""
+            for _ in range(4):
+                if isinstance(v_, Ref):
+                    v_ = it.read_ref(store, v_)
+            return kind(v_) in ("gen", "take", "peek", "chars") or (isinstance(v_, Agg) and v_.path == "std::ops::Range")
+        if name == "std::iter::Iterator::take" and len(args) == 2 and own(vals[0]):
             inner = args[0] if isinstance(args[0], Ref) else vals[0]
             return [(take(inner, vals[1]), store)]
-        if name == "std::iter::Iterator::by_ref" and len(args) == 1:
+        if name == "std::iter::Iterator::by_ref" and len(args) == 1 and own(vals[0]):
             return [(args[0], store)]
         if (name.endswith("IntoIterator>::into_iter") or name == "std::iter::IntoIterator::into_iter") and len(vals) == 1 \
                 and (kind(vals[0]) in ("gen", "take", "peek") or (isinstance(vals[0], Agg) and vals[0].path == "std::ops::Range")):
@@ -165,7 +171,7 @@ class PrinterDomain(TermDomain):
             return None
         if name.endswith("as std::iter::Iterator>::next") or name == "std::iter::Iterator::next" \
                 or name == "std::iter::range::<impl std::iter::Iterator for std::ops::Range<A>>::next":
-            r = self.iter_next(it, args[0], store)
+            r = self.iter_next(it, args[0], store) if own(args[0]) else None
             if r is not None:
                 return r
         if name == "std::iter::Peekable::<I>::peek" and kind(vals[0]) == "peek":
@@ -173,6 +179,8 @@ class PrinterDomain(TermDomain):
             if item == "EOF":
                 return [(NONE, store)]
             return [(some(item), store)]
+        if name.endswith("as std::iter::Iterator>::count") and kind(vals[0]) == "peek_any":
+            return [(T("rest_after_any", Sym("pos%d" % vals[0].field(0).v)), store)]
         if name.endswith("as std::iter::Iterator>::count") and kind(vals[0]) == "peek":
             if self.script_item(store, vals[0]) == "EOF":
                 return [(Const(0), store)]
@@ -184,13 +192,46 @@ class PrinterDomain(TermDomain):
                 res = it.apply_closure(vals[1], [c], store, getattr(it, "_cur_depth", 0))
                 preds = sorted({repr(v) for k_, v, s_ in (res or [])})
                 self.any_closures.append(preds)
-                return self.fork(store, T("rest_nonzero", Sym("pos%d" % target.field(0).v)))
+                # `any` drives the iterator it is called on: whatever is looked at afterwards (count, peek) is what is left
+                # after the scan - harmless on a clone, not on the iterator the exponent is counted from
+                st_any = store
+                if isinstance(vals[0], Ref):
+                    st_any = it.write_ref(store, vals[0], Agg("peek_any", None, None, None, (target.field(0),)))
+                return self.fork(st_any, T("rest_nonzero", Sym("pos%d" % target.field(0).v)))
         if name == "std::option::Option::<T>::is_some" and isinstance(vals[0], Agg) and vals[0].path == "std::option::Option":
             return [(Const(vals[0].vi == 1), store)]
         if name == "std::option::Option::<T>::is_none" and isinstance(vals[0], Agg) and vals[0].path == "std::option::Option":
             return [(Const(vals[0].vi == 0), store)]
         if name.endswith("as std::string::ToString>::to_string") and len(vals) == 1:
+            n_ = store.get(("digits_n",))
+            if n_ is not None:
+                # bounded mode: the decimal string of the whole part has n symbolic digit characters
+                from ..absint.stdmodels import Seq
+                s2 = dict(store)
+                s2[("digits_of",)] = vals[0]
+                return [(Seq(tuple(Sym("c%d" % i) for i in range(n_))), s2)]
             return [(T("decimal", vals[0]), store)]
+        if type(vals[0]).__name__ == "Seq" if vals else False:
+            # a string of symbolic digits (bounded mode): the generic sequence / iterator models apply
+            from ..absint.stdmodels import Seq, it_list
+            m_ = name.rsplit("::", 1)[-1]
+            if name.startswith("core::str::<impl str>::") or name.startswith("std::string::String::"):
+                if m_ == "len":
+                    return [(Const(len(vals[0].items)), store)]
+                if m_ == "is_empty":
+                    return [(Const(not vals[0].items), store)]
+                if m_ == "chars":
+                    return [(it_list(vals[0].items), store)]
+                if m_ == "split_at" and len(vals) == 2 and isinstance(vals[1], Const):
+                    k_ = vals[1].v
+                    if k_ > len(vals[0].items):
+                        return [("panic", store)]
+                    return [(Agg("tuple", None, None, None, (Seq(vals[0].items[:k_]), Seq(vals[0].items[k_:]))), store)]
+                if m_ in ("as_str", "as_ref", "deref"):
+                    return [(vals[0], store)]
+            if name == "<std::string::String as std::ops::Deref>::deref":
+                return [(vals[0], store)]
+            return None
         if name in ("<std::string::String as std::ops::Deref>::deref", "std::string::String::as_str") and len(vals) == 1:
             return [(vals[0], store)]
         if name == "core::str::<impl str>::chars" and len(vals) == 1:
@@ -1535,7 +1576,11 @@ def r6_big(facts, rep, names):
     if body is None:
         return
     h = Harness(facts, body)
-    if not rep.ob("C08-R6", "anchor:loops", len(h.heads) == 2, "the scientific form has a loop over the whole part's digits and one over fraction digits (%d loop heads)" % len(h.heads), body.site()):
+    r6_bounded(facts, rep, names, body)
+    if len(h.heads) != 2:
+        # another way of walking the digits (slices, more loops): the bounded check above is all there is; not an alarm
+        rep.ob("C08-R6", "structure", True, "the scientific form has %d loops: decided on whole parts of 1..5 digits with limits 0..3 only "
+               "(the one-arbitrary-turn induction needs a digit loop and a fraction loop)" % len(h.heads), body.site(), nontrivial=False)
         return
     H1, H2 = h.heads
     st0, args, syms = helper_args(body, {})
@@ -1812,12 +1857,174 @@ def r6_big(facts, rep, names):
            body.site(), sample={"paths": len(segs)})
 
 
+def r6_bounded(facts, rep, names, body):
+    """The scientific form on whole parts of 1..5 digits with limits 0..3, whatever its code looks like (loops, slices,
+    iterator chains): the digit string is a sequence of n symbolic characters, the limit a constant, so every walk over the
+    digits is a finite one; the fraction digits still come from the symbolic generator.  Every path must print
+    [-] c0 ['.' c1..ck] (k = min(n-1, limit)), then - only if no digit of the whole part was cut off - up to limit-(n-1)
+    fraction digits (each the long-division digit of the running remainder, pulled only while it is non-zero), the mark iff
+    something is lost (a cut-off digit other than '0', or the remainder after the last printed digit non-zero) and
+    show_continuation, and 'e' n-1 iff n > 1."""
+    n_paths = 0
+    roles_seen = set()
+    for n_ in (1, 2, 3, 4, 5):
+        for L_ in (0, 1, 2, 3):
+            key = "bounded:digits=%d:limit=%d" % (n_, L_)
+            dom = PrinterDomain(facts)
+            it = core.Interp(facts, dom, budget=300000)
+            st = {(0, 801): Agg("adt", "rational::display::DisplaySpec", 0, "DisplaySpec", (Const(L_), Sym("X"), Sym("show"))),
+                  (0, 800): Agg("adt", "rational::display::Display", 0, "Display", (Sym("x"), Ref(0, 801))),
+                  ("digits_n",): n_, ("out",): (), ("pulled",): (), ("rems",): ()}
+            args, bigs = [], []
+            for i in range(1, body.arg_count + 1):
+                ty = body.local_ty(i)
+                if "rational::display::Display" in ty:
+                    args.append(Ref(0, 800))
+                elif "Formatter" in ty:
+                    args.append(FSYM)
+                elif ty == "bool":
+                    args.append(Sym("neg"))
+                else:
+                    args.append(Sym("a%d" % i))
+                    if "BigInt" in ty:
+                        bigs.append("a%d" % i)
+            try:
+                outs = it.run(body, args, st)
+            except core.Undecided as e:
+                rep.ob("C08-R6", key, False, "undecided: %s" % e, body.site())
+                continue
+            bad = []
+            seen_ok = 0
+            k_ = min(n_ - 1, L_)
+            cut = list(range(k_ + 1, n_))
+            budget = L_ - (n_ - 1)
+            for o in outs:
+                pc = pc_dict(o.store)
+                n_paths += 1
+                # paths behind a failed digit-range test (a digit that is not 0..9) are excluded by the generator's invariant (R1)
+                impossible = any(("fits_u8" in p and b is False) or (p.startswith("Le(") and "to_u8" in p and b is False) for p, b in pc.items())
+                if impossible:
+                    continue
+                if o.kind != "ret":
+                    bad.append("%s: %s" % (o.kind, str(o.value)[:60]))
+                    continue
+                v = o.value
+                if not (isinstance(v, Agg) and v.path == "std::result::Result" and v.vi == 0):
+                    continue
+                seen_ok += 1
+                out = list(o.store.get(("out",), ()))
+                digits_of = o.store.get(("digits_of",))
+                others = [b_ for b_ in bigs if Sym(b_) != digits_of]
+                remn_ev = [b_ for b_ in others if any(("is_zero(%s)" % b_) == p for p in pc)]
+                remn = remn_ev or others[:1]
+                if len(others) != 2 or not remn:
+                    bad.append("parameter roles: digits of %r, others %s" % (digits_of, others))
+                    continue
+                ra, da = remn[0], [b_ for b_ in others if b_ != remn[0]][0]
+                ren = {ra: R, da: D}
+                if isinstance(digits_of, Sym) and len(remn_ev) == 1:
+                    roles_seen.add((digits_of.name, ra, da))
+                negv = pc.get("neg")
+                if negv is None:
+                    bad.append("the sign is not consulted")
+                    continue
+                want = ([("lit", "-")] if negv else []) + [("val", Sym("c0"))]
+                if n_ > 1:
+                    want.append(("lit", "."))
+                want += [("val", Sym("c%d" % j)) for j in range(1, k_ + 1)]
+                pulled = [subst(d_, ren) for d_ in o.store.get(("pulled",), ())]
+                rems = [subst(r_, ren) for r_ in o.store.get(("rems",), ())]
+                pcr = {repr(subst(p_, ren)): b_ for p_, b_ in pc_of(o.store)}
+                lose = None
+                if cut:
+                    if pulled:
+                        bad.append("fraction digits are pulled although %d digit(s) of the whole part are cut off" % len(cut))
+                        continue
+                    known = []
+                    for j in cut:
+                        nz = None
+                        for p_, b_ in pc_of(o.store):
+                            if isinstance(p_, T) and p_.op in ("Ne", "Eq", "==") and len(p_.args) == 2 and Sym("c%d" % j) in p_.args and any(
+                                    isinstance(a_, Const) and a_.v in (48, "0") for a_ in p_.args):
+                                nz = b_ if p_.op == "Ne" else (not b_)
+                        known.append(nz)
+                    rz = pcr.get("is_zero(R)")
+                    if any(x is True for x in known) or rz is False:
+                        lose = True
+                    elif all(x is False for x in known) and rz is True:
+                        lose = False
+                    printed_frac = []
+                else:
+                    r_spec = R
+                    okp = True
+                    for i_, d_ in enumerate(pulled):
+                        q_spec = T("idiv", T("*", r_spec, K(10)), D)
+                        zi = pcr.get(repr(T("is_zero", R if i_ == 0 else rems[i_ - 1])))
+                        if i_ >= budget or zi is not False or not same(d_, q_spec):
+                            bad.append("fraction digit %d is pulled beyond the budget %d, without R != 0, or is not floor(10R/D)" % (i_ + 1, budget))
+                            okp = False
+                            break
+                        if i_ < len(rems) and not same(rems[i_], T("-", T("*", r_spec, K(10)), T("*", D, q_spec))):
+                            bad.append("after fraction digit %d the remainder is %r" % (i_ + 1, rems[i_]))
+                        r_spec = T("-", T("*", r_spec, K(10)), T("*", D, q_spec))
+                    if not okp:
+                        continue
+                    printed_frac = [("val", d_) for d_ in pulled]
+                    last = rems[len(pulled) - 1] if pulled else R
+                    lz = pcr.get(repr(T("is_zero", last)))
+                    if len(pulled) < budget and lz is not True:
+                        bad.append("the fraction stops after %d digit(s) with budget %d and the remainder not tested zero" % (len(pulled), budget))
+                    lose = None if lz is None else (not lz)
+                want += printed_frac
+                show = pc.get("show")
+                def flat(atoms):
+                    o_ = []
+                    for a_ in atoms:
+                        if a_[0] == "lit":
+                            o_.extend(("lit", ch_) for ch_ in a_[1])
+                        else:
+                            o_.append(a_)
+                    return o_
+                want = flat(want)
+                got = flat([(a_[0], subst(a_[1], ren)) if a_[0] == "val" else a_ for a_ in out])
+                # split the literals of the tail
+                head, tail = got[:len(want)], got[len(want):]
+                hm = len(head) == len(want) and all(g_[0] == w_[0] and (same(g_[1], w_[1]) if (g_[0] == "val" and not isinstance(w_[1], Sym)) else g_[1] == w_[1]) for g_, w_ in zip(head, want))
+                if not hm:
+                    # a literal of the tail may have merged with the '.' / '-' of the head: compare on the flattened text
+                    bad.append("prints %s; specified %s ..." % (describe_out(out), describe_out(want)))
+                    continue
+                txt = "".join(a_[1] for a_ in tail if a_[0] == "lit")
+                vals_ = [a_[1] for a_ in tail if a_[0] == "val"]
+                has_mark = "…" in txt
+                want_e = n_ > 1
+                if has_mark and not (lose is True and show is True):
+                    bad.append("the mark is printed where loss = %s, show_continuation = %s" % (lose, show))
+                if not has_mark and not (lose is False or show is False):
+                    bad.append("no mark is printed where loss = %s, show_continuation = %s" % (lose, show))
+                if txt.replace("…", "") != ("e" if want_e else "") or (vals_ != [Const(n_ - 1)] if want_e else bool(vals_)):
+                    bad.append("the end prints %s; specified %s" % (describe_out(tail), "'e' %d" % (n_ - 1) if want_e else "nothing"))
+            rep.ob("C08-R6", key, not bad and seen_ok >= 1, "; ".join(sorted(set(bad))[:3]) if bad else
+                   "all %d successful path(s) print first digit, %d more digit(s), %s, the mark iff something is lost, %s" % (
+                       seen_ok, k_, "no fraction digit (%d cut off)" % len(cut) if cut else "up to %d fraction digit(s)" % max(budget, 0),
+                       "'e' %d" % (n_ - 1) if n_ > 1 else "no exponent"), body.site())
+    rep.count("scientific form: bounded paths", n_paths)
+    # parameters by use (on paths where the remainder is looked at the roles are unambiguous)
+    firm = {r_ for r_ in roles_seen}
+    if len({r_[0] for r_ in firm}) == 1 and "roles_big" not in names:
+        by_rem = {}
+        for d_, ra_, da_ in firm:
+            by_rem[(ra_, da_)] = by_rem.get((ra_, da_), 0) + 1
+        (ra_, da_), _ = max(by_rem.items(), key=lambda kv: kv[1])
+        names["roles_big_bounded"] = {"div": next(iter(firm))[0], "rem": ra_, "den": da_}
+
+
 def r7_agreement(facts, rep, names):
     rep.rule("C08-R7", "caller / callee agreement: the dispatcher hands whole, remainder and den to each helper in exactly the parameter "
                        "positions in which the helper uses them as digit string / generator remainder / generator denominator")
     for role, key in (("big", "roles_big"), ("whole", "roles_whole")):
         passed = names.get("passed_" + role)
-        used = names.get(key)
+        used = names.get(key) or names.get(key + "_bounded")
         if not passed or not used:
             rep.ob("C08-R7", "agreement:" + role, False, "summary missing (passed %s, used %s)" % (passed, used))
             continue
